@@ -13,6 +13,7 @@ import Driver.Wire
 import Mdsort.Model.Main
 import Mdsort.Model.Plan
 import Mdsort.Model.Inspect
+import Mdsort.Model.Lex
 import Mdsort.Spec.Rules
 import Mdsort.Spec.Interp
 import Mdsort.Proofs.Interp
@@ -424,6 +425,30 @@ def handleConform (args : List Bytes) : String :=
     | _ => "BADENV"
   | _ => "BADOP"
 
+def tokStr : Model.Token → String
+  | .eof => "eof"
+  | .neg => "neg"
+  | .str s => "str " ++ toHex s
+  | .pattern s i l u => s!"pattern {toHex s} {if i then 1 else 0}{if l then 1 else 0}{if u then 1 else 0}"
+  | .int n => s!"int {n}"
+  | .keyword k => "kw " ++ k
+  | .scalar (some v) => s!"scalar {v}"
+  | .scalar none => "scalar ?"
+  | .macro n => "macro " ++ toHex n
+  | .char c => s!"char {c.toNat}"
+
+/-- lex <conf> <records>: one `off pflag sflag aftermacro` per line -> `token newoff errors` per record, `;`-joined -/
+def handleLex (args : List Bytes) : String :=
+  match args with
+  | [conf, recs] =>
+    String.intercalate ";" ((Driver.lines recs).map fun l =>
+      match (Driver.words l).map String.toNat? with
+      | [some off, some pf, some sf, some am] =>
+        let r := Model.lex1 (pf == 1) (sf == 1) (am == 1) (conf.drop off)
+        s!"{tokStr r.tok} {conf.length - r.rest.length} {r.errors}"
+      | _ => "BADREC")
+  | _ => "BADOP"
+
 def handleMsg (side op : String) (args : List Bytes) : Option String :=
   match side, op, args with
   | "M", "hparse", [m] => some (dumpTable (Model.parseMessage m))
@@ -442,6 +467,7 @@ def handleMsg (side op : String) (args : List Bytes) : Option String :=
   | "M", "ctype", [] => some ctypeTable
   | "M", "eval", as => some (handleEval as)
   | "M", "conform", as => some (handleConform as)
+  | "M", "lex", as => some (handleLex as)
   | _, _, _ => none
 
 def handle (side op : String) (args : List String) : String :=
